@@ -25,6 +25,10 @@ TraceNext ==
   /\ l' = l + 1
   /\ LET e == Rec[l] IN
      /\ (~G14_noUnauthenticatedSuccess(e)) => Viol(l, e.id, "C14", "G14_noUnauthenticatedSuccess", e.backend)
+     \* (C12) inside a tunnel "the TLS session is verified against the origin's name, not the proxy's": an exchange that
+     \* succeeds through a CONNECT tunnel with a peer nothing authenticates fails C12 as well
+     /\ (~G14_noUnauthenticatedSuccess(e) /\ e.path \in {"connect", "tls-proxy-bad", "tls-proxy-good"})
+          => Viol(l, e.id, "C12", "G12_tlsVerifiedAgainstOrigin", e.backend)
      /\ (~G14_waiverHonoured(e)) => Viol(l, e.id, "C14", "G14_waiverHonoured", e.backend \o " " \o e.kind)
      /\ (~X_refusalIsATlsError(e)) => Viol(l, e.id, "X-error-kinds", "X_refusalIsATlsError", e.backend \o " " \o e.kind)
      /\ (~G14_possessionProved(e)) => Viol(l, e.id, "C14", "G14_possessionProved", e.backend \o " " \o e.tlsver)
